@@ -267,7 +267,11 @@ pub fn gen_rdata(u: &mut Unstructured, rtype: u16, generic: bool, pool: &[Labels
     macro_rules! n32 { () => {{ let x = u32tok(u); t.push(Tok::W(x.to_string())); w.extend_from_slice(&x.to_be_bytes()); x }}; }
     macro_rules! name { () => {{ let n = pool_name(u, pool); w.extend(gn::to_wire(&n)); t.push(Tok::N(n)); }}; }
     macro_rules! cstr { () => {{ let c = cs_content(u); w.push(c.len() as u8); w.extend_from_slice(&c); t.push(Tok::S(c)); }}; }
-    macro_rules! hexrest { ($min:expr, $max:expr) => {{ let b = small_blob(u, $min, $max); let up = flag(u); t.extend(chunks(u, &hex(&b, up), true)); w.extend(b); }}; }
+    // Hex fields of typed records (DS/CDS digest, TLSA, SSHFP, ZONEMD) allow
+    // white space anywhere in the hexadecimal text (RFC 4034 section 5.3 and
+    // friends): words may break inside an octet. Only the RFC 3597 generic
+    // form below demands an even number of digits per word.
+    macro_rules! hexrest { ($min:expr, $max:expr) => {{ let b = small_blob(u, $min, $max); let up = flag(u); let odd = hi(u, 110); t.extend(chunks(u, &hex(&b, up), !odd)); w.extend(b); }}; }
     macro_rules! b64rest { ($min:expr, $max:expr) => {{ let b = small_blob(u, $min, $max); t.extend(chunks(u, &base64(&b), false)); w.extend(b); }}; }
 
     if generic {
